@@ -104,6 +104,49 @@ def check_forcing_never_refuses(ctx, fx, cfg, rule):
     ctx.floor(rule, "bounded forcing closures (%s)" % cfg, n, 1)
 
 
+def check_birth(ctx, fx, cfg, RULE="R15.3"):
+    """the birth site wires the address and the context to the same channel halves and the same id"""
+    fc = fx.fn("environment::Environment::<A, R>::from_channel")
+    if ctx.require(fc is not None, RULE, "from_channel@" + cfg, "Environment::from_channel not found"):
+        b = ctx.body(fx, fc)
+        ok = True
+        det = {}
+        for bi, blk in enumerate(b.blocks):
+            for st in blk["s"]:
+                if st["k"] == "assign" and st["r"]["k"] == "agg" and st["r"].get("def") in ("addr::Addr", "context::Context"):
+                    name = st["r"]["def"].split("::")[-1]
+                    for fld, o in zip(st["r"]["fields"], st["r"]["ops"]):
+                        rs = roots(b, o)
+                        det["%s.%s" % (name, fld)] = sorted("%s:%s" % (r.kind, r.site) for r in rs)
+        # ... or built through a crate-local constructor that is a plain struct literal of its parameters (`Addr::from_parts`)
+        for bi, ct in b.normal_calls():
+            h = fx.callee_fn(ct)
+            if h is None or h.get("is_async") or not (h.get("output") or "").startswith(("addr::Addr<", "context::Context<")):
+                continue
+            hb = ctx.body(fx, h)
+            lits = [st for _b2, _s2, st in agg_sites(hb, ak="adt") if st["r"].get("def") in ("addr::Addr", "context::Context") and st["p"] == [0]]
+            if len(lits) != 1:
+                continue
+            name = lits[0]["r"]["def"].split("::")[-1]
+            for fld, o in zip(lits[0]["r"]["fields"], lits[0]["r"]["ops"]):
+                ho = hb.origins(o)
+                if ho and all(x.kind == "arg" and not x.proj and x.site - 1 < len(ct["args"]) for x in ho):
+                    rs = set()
+                    for x in ho:
+                        rs |= roots(b, ct["args"][x.site - 1])
+                    det["%s.%s" % (name, fld)] = sorted("%s:%s" % (r.kind, r.site) for r in rs)
+                else:
+                    det["%s.%s" % (name, fld)] = ["?constructor"]
+        # all channel fields must come from the one `channel` argument; the id from one ContextID::default()
+        for k, v in det.items():
+            fld = k.split(".")[1]
+            if fld in ("weak_tx", "weak_force_tx", "payload_tx", "payload_force_tx"):
+                if not all(x.startswith("arg") or x.startswith("call:channel::Channel") for x in v):
+                    ok = False
+        ids = [v for k, v in det.items() if k.endswith(".id") or k.endswith(".context_id")]
+        ctx.require(ok and len(ids) == 2 and ids[0] == ids[1], RULE, "from_channel@" + cfg, "address and context are not wired to the same channel / id: %s" % det, fn=fc["def"], site=fc["loc"], detail=det)
+
+
 def relevant(ty):
     return "dyn channel::TxFn<" in ty or "dyn channel::ForceTxFn<" in ty or ty.startswith("context::id::ContextID") or "UpgradeFn<" in ty or ty.startswith("addr::Addr<") or "futures_util::future::future::shared::Shared<futures_channel::oneshot::Receiver<()>>" in ty
 
@@ -198,43 +241,10 @@ def check_cfg(ctx, fx, cfg):
             ctx.viol("R15.4", "exists:" + e, "%s not found" % e)
     # R15.5 ... and the forcing half never refuses a request while the mailbox is open
     check_forcing_never_refuses(ctx, fx, cfg, "R15.5")
-    # R15.3 birth site
-    fc = fx.fn("environment::Environment::<A, R>::from_channel")
-    if ctx.require(fc is not None, "R15.3", "from_channel@" + cfg, "Environment::from_channel not found"):
-        b = ctx.body(fx, fc)
-        ok = True
-        det = {}
-        for bi, blk in enumerate(b.blocks):
-            for st in blk["s"]:
-                if st["k"] == "assign" and st["r"]["k"] == "agg" and st["r"].get("def") in ("addr::Addr", "context::Context"):
-                    name = st["r"]["def"].split("::")[-1]
-                    for fld, o in zip(st["r"]["fields"], st["r"]["ops"]):
-                        rs = roots(b, o)
-                        det["%s.%s" % (name, fld)] = sorted("%s:%s" % (r.kind, r.site) for r in rs)
-        # ... or built through a crate-local constructor that is a plain struct literal of its parameters (`Addr::from_parts`)
-        for bi, ct in b.normal_calls():
-            h = fx.callee_fn(ct)
-            if h is None or h.get("is_async") or not (h.get("output") or "").startswith(("addr::Addr<", "context::Context<")):
-                continue
-            hb = ctx.body(fx, h)
-            lits = [st for _b2, _s2, st in agg_sites(hb, ak="adt") if st["r"].get("def") in ("addr::Addr", "context::Context") and st["p"] == [0]]
-            if len(lits) != 1:
-                continue
-            name = lits[0]["r"]["def"].split("::")[-1]
-            for fld, o in zip(lits[0]["r"]["fields"], lits[0]["r"]["ops"]):
-                ho = hb.origins(o)
-                if ho and all(x.kind == "arg" and not x.proj and x.site - 1 < len(ct["args"]) for x in ho):
-                    rs = set()
-                    for x in ho:
-                        rs |= roots(b, ct["args"][x.site - 1])
-                    det["%s.%s" % (name, fld)] = sorted("%s:%s" % (r.kind, r.site) for r in rs)
-                else:
-                    det["%s.%s" % (name, fld)] = ["?constructor"]
-        # all channel fields must come from the one `channel` argument; the id from one ContextID::default()
-        for k, v in det.items():
-            fld = k.split(".")[1]
-            if fld in ("weak_tx", "weak_force_tx", "payload_tx", "payload_force_tx"):
-                if not all(x.startswith("arg") or x.startswith("call:channel::Channel") for x in v):
-                    ok = False
-        ids = [v for k, v in det.items() if k.endswith(".id") or k.endswith(".context_id")]
-        ctx.require(ok and len(ids) == 2 and ids[0] == ids[1], "R15.3", "from_channel@" + cfg, "address and context are not wired to the same channel / id: %s" % det, fn=fc["def"], site=fc["loc"], detail=det)
+    check_birth(ctx, fx, cfg)
+    # R15.6 dropping one strong handle (an OwningAddr) while others are held does not take the actor down: what sits in the
+    # handle's slot is the runtime's own task handle, taken out and released by the join protocol (shared with C17) — a
+    # handle type whose drop aborts the task would tie the actor's life to that one handle
+    if cfg != "bare":
+        from props import c17 as _c17
+        _c17.check_join(ctx, fx, cfg, "R15.6")
